@@ -96,6 +96,23 @@ pub fn pipeline_inputs() -> Vec<PInput> {
     g[13] = v(0.52, 0.47, 0.51);
     let mask: Vec<bool> = (0..27).map(|i| i % 5 != 3).collect();
     inputs.push(PInput { name: "3D 3x3x3 perturbed lattice n=27 masked", dim: 3, periodic: true, anchor: v(0., 0., 0.), width: v(1., 1., 1.), gens: g, mask: Some(mask) });
+    // one very large cell (a generator inside a jittered Fibonacci shell of 70: about 70 planes, >= 128 vertices): work inside
+    // a single cell that a size threshold could move onto a nested parallel region
+    let mut g = vec![v(0.5, 0.5, 0.5)];
+    let mut lcg: u64 = 0x5eed_0046;
+    let mut next = || {
+        lcg = lcg.wrapping_mul(6364136223846793005).wrapping_add(1442695040888963407);
+        (lcg >> 11) as f64 / (1u64 << 53) as f64
+    };
+    let m = 70;
+    for k in 0..m {
+        let z = 1. - 2. * (k as f64 + 0.5) / m as f64;
+        let phi = k as f64 * 2.399963229728653 + 0.05 * next();
+        let r = (1. - z * z).sqrt();
+        let rad = 0.3 + 0.002 * next();
+        g.push(v(0.5 + rad * r * phi.cos(), 0.5 + rad * r * phi.sin(), 0.5 + rad * z));
+    }
+    inputs.push(PInput { name: "3D shell of 70 around one generator (cell with >= 128 vertices)", dim: 3, periodic: false, anchor: v(0., 0., 0.), width: v(1., 1., 1.), gens: g, mask: None });
     inputs
 }
 
